@@ -312,6 +312,11 @@ func decodeMark(_ context.Context, cause error, _ string, _ []string, payload pr
 		// DecodeError use the opaque type.
 		return nil
 	}
+	if len(m.Types) == 0 {
+		// A mark always carries at least one type. An empty list means the
+		// payload is incomplete; let DecodeError use the opaque type.
+		return nil
+	}
 	return &withMark{cause: cause, mark: errorMark{msg: m.Msg, types: m.Types}}
 }
 
